@@ -58,6 +58,12 @@ def logic(pool, max_arity, require=None):
             for c in itertools.product(pool, repeat=n):
                 if require is None or any(x in require for x in c) or n == 0:
                     res.append((k,) + c)
+    # LogicalAnd / LogicalOr nodes built directly with the arities the factories fold away (round 10)
+    for k in ("andn", "orn"):
+        for n in (0, 1):
+            for c in itertools.product(pool, repeat=n):
+                if require is None or any(x in require for x in c) or n == 0:
+                    res.append((k,) + c)
     return res
 
 
@@ -252,7 +258,7 @@ def run(tier, seed):
             }
         )
     evals = max(1, sum(r["evals"] for r in results))
-    nontrivial = sum(1 for f, e in cases if e[0] in ("and", "or", "not"))
+    nontrivial = sum(1 for f, e in cases if e[0] in ("and", "or", "andn", "orn", "not"))
     folded = 0
     cov = {
         "states": len(cases) * len(ROWS),
